@@ -14,7 +14,7 @@
    All three are FALSE of the faithful model of the unchanged code (D3); the refutations below are
    vm_compute evaluations of the shrunk witnesses found by the search (each replays on the real code). *)
 From Coq Require Import String List.
-From PM Require Import Tree Syntax Syntax_proofs_C05 Syntax_proofs_C05b.
+From PM Require Import Tree Syntax Syntax_proofs_C05 Syntax_proofs_C05b Syntax_proofs_guard.
 Import ListNotations.
 
 (*  L: x=y*z;   x=y, y=z*z;   x=-(-y);   x=-(int)y;   (int)x++;   x+y;  *)
@@ -60,9 +60,25 @@ Theorem C05_unary_asgn_partial :
                forall e, In e r -> exists k p, e = Ev k p /\ (k = KDropEval \/ k = KDropSizeof)).
 Proof. exact unary_asgn_total. Qed.
 
+(* an accepted for-header has ONE source of iteration: every variable an initialiser copies from is the guard X or an
+   iterator (initialised in the header or mentioned in the next expression); no initialiser's source is dropped from the
+   guard computation (SyntaxUtils.init_vars / Variables.loop_guard, bodies pinned by the translator); and X does not
+   occur in the loop body *)
+Theorem C05_accepted_header_sources :
+  forall init conds nxt body x iters0 srcs,
+    init_vars init = Some (iters0, srcs) -> loop_guard_of init conds nxt body = LcYes x ->
+    forall s, In s srcs -> s = x \/ In s iters0 \/ In s (vnames_of nxt).
+Proof. exact Syntax_proofs_guard.accepted_header_sources. Qed.
+
+Theorem C05_accepted_guard_not_in_body :
+  forall init conds nxt body x, loop_guard_of init conds nxt body = LcYes x -> ~ In x (vnames_of body).
+Proof. exact Syntax_proofs_guard.accepted_header_guard_not_in_body. Qed.
+
 Print Assumptions C05_no_skip_refuted.
 Print Assumptions C05_no_dropped_effect_refuted.
 Print Assumptions C05_no_effect_in_conditions_refuted.
 Print Assumptions C05_converse_refuted.
 Print Assumptions C05_no_skip_partial.
 Print Assumptions C05_unary_asgn_partial.
+Print Assumptions C05_accepted_header_sources.
+Print Assumptions C05_accepted_guard_not_in_body.
